@@ -2950,6 +2950,9 @@ class MOFCompiler:
         if ns not in self.parser.classnames:
             self.parser.classnames[ns] = []
 
+        # An embedded instance may itself have embedded instance properties:
+        # the list of the outer compile is restored when this one is done.
+        outer_objects = self.parser.embedded_objects
         try:
             # Set this variable to list to short-circuit insertion of created
             # classes and instances to this list rather than to the repository
@@ -2961,6 +2964,10 @@ class MOFCompiler:
             # logging.basicConfig(level=logging.DEBUG)
             if isinstance(mof, list):
                 for mof_str in mof:
+                    if mof_str is None:
+                        # NULL item of an array of embedded objects
+                        self.parser.embedded_objects.append(None)
+                        continue
                     self.parser.mof = mof_str
                     _ = self.parser.parse(mof_str, lexer=lexer)
             else:
@@ -2975,9 +2982,10 @@ class MOFCompiler:
             self.parser.log(pe.get_err_msg())
             raise
         finally:
-            # Force the embedded_iobjects variable to be reset telling the
-            # compiler not to insert new objects into this variable
-            self.parser.embedded_objects = None
+            # Reset the embedded_objects variable to its value before this
+            # compile (None at the outermost level, telling the compiler not
+            # to insert new objects into this variable)
+            self.parser.embedded_objects = outer_objects
 
     def compile_string(self, mof, ns, filename=None):
         """
